@@ -9,6 +9,9 @@ from harness.props import common
 
 warnings.filterwarnings("ignore", category=FutureWarning)
 
+COL = re.compile(r"(@\d+):-?\d+")      # columns are not part of any property: compare lines only
+
+
 NOISE_ALPHABET = list("ab_x.e019()[],;+-*/%<>=!\"'\\# \t\r\n#fnrtTRUE") + ["é", " ", "\U0001F600"]
 
 
@@ -23,7 +26,7 @@ def impl_outcome(src):
         try:
             with core.time_limit(2):
                 node = parse_script(src, "f")
-                outs.append(('ast', astdump.dump(node, True)))
+                outs.append(('ast', COL.sub(r"\1", astdump.dump(node, True))))
         except core.Timeout:
             outs.append(('timeout',))
         except CklSyntaxError as e:
@@ -184,7 +187,7 @@ def run(ctx):
             continue
         x = proto.parse_sx(r)
         if x[0] == "ast":
-            model = ('ast', r[5:-1])
+            model = ('ast', COL.sub(r"\1", r[5:-1]))
         elif x[0] == "syn":
             model = ('syn', int(x[2]), x[3] == "T")
         else:
